@@ -68,7 +68,7 @@ func successDominates(fn *ssa.Function, b *ssa.BasicBlock, isX func(c *ssa.Call)
 		}
 		if !isX(call) {
 			cal := flow.Callee(call)
-			if cal == nil || cal.Pkg == nil || cal.Pkg.Pkg.Path() != load.PkgProfiler || !establishes(cal, isX, depth+1) {
+			if cal == nil || cal.Pkg == nil || cal.Pkg != fn.Pkg || !establishes(cal, isX, depth+1) {
 				continue
 			}
 		}
